@@ -23,6 +23,7 @@ func scenPrints(out *scenOut, r *rng, thorough bool) {
 	printContent(out)
 	printThenAltThenQuit(out)
 	printlnKeepsItsPlace(out)
+	printWhileUpdateBusy(out)
 }
 
 // printThenWhileFrameHeld: the ticker goroutine is inside the output writer with the frame that
@@ -303,5 +304,54 @@ func printlnKeepsItsPlace(out *scenOut) {
 			break
 		}
 		last = j
+	}
+}
+
+// printWhileUpdateBusy: Println / Printf called while Update is busy for 0.7 s: the calls wait (they
+// are Sends), and both lines appear above the view once the loop is free again - a print is never
+// dropped because the loop was slow to take it (C14: every line printed appears exactly once).
+func printWhileUpdateBusy(out *scenOut) {
+	ctl := newRecCtl()
+	buf := &safeBuffer{}
+	ctl.onUpdate = func(m tea.Msg, v int) tea.Cmd {
+		if u, ok := m.(userMsg); ok && u.Sender == 2 {
+			time.Sleep(700 * time.Millisecond)
+		}
+		return nil
+	}
+	run := startProgram(ctl, buf, tea.WithInput(nil), tea.WithoutSignalHandler(), tea.WithFPS(120))
+	desc := "Println and Printf called while Update is busy for 0.7 s"
+	waitFor(2*time.Second, func() bool { return ctl.log.has("view-exit", "") })
+	run.p.Send(tea.WindowSizeMsg{Width: 60, Height: 20})
+	go run.p.Send(userMsg{2, 0})
+	waitFor(2*time.Second, func() bool { return ctl.log.has("update-enter", "u2.0") })
+	done := make(chan struct{})
+	go func() {
+		run.p.Println("busy-line-one")
+		run.p.Printf("busy-line-%s", "two")
+		close(done)
+	}()
+	select {
+	case <-done:
+	case <-time.After(4 * time.Second):
+		out.fail(finding{Property: "C13", Class: "new", What: "Println / Printf did not return after the busy Update had finished", Input: desc})
+	}
+	run.p.Send(userMsg{6, 6})
+	waitFor(3*time.Second, func() bool { return ctl.log.has("update-exit", "u6.6") })
+	waitFor(2*time.Second, func() bool { return strings.Contains(buf.String(), "busy-line-two") })
+	run.p.Quit()
+	run.wait(4 * time.Second)
+	out.record("print-while-update-busy", desc)
+	t := newVterm(60, 20)
+	t.write([]byte(buf.String()))
+	var rows []string
+	for r := 0; r < len(t.main.rows); r++ {
+		rows = append(rows, t.main.text(r))
+	}
+	screen := "\n" + strings.Join(rows, "\n") + "\n"
+	i, j := strings.Index(screen, "\nbusy-line-one\n"), strings.Index(screen, "\nbusy-line-two\n")
+	if i < 0 || j < 0 || j < i || strings.Count(screen, "busy-line-one") != 1 || strings.Count(screen, "busy-line-two") != 1 {
+		out.fail(finding{Property: "C14", Class: "new", What: "a line printed while Update was busy does not appear exactly once, in order, above the view", Input: desc,
+			Expected: "busy-line-one, busy-line-two", Observed: fmt.Sprintf("positions %d, %d", i, j)})
 	}
 }
